@@ -18,6 +18,10 @@ Proof.
   intros K comp P n c st Hn. exists n. intros k Hk. exact (le_run _ _ (mk_mono_le P n k Hk) K comp c st Hn).
 Qed.
 
+Lemma o_run_S : forall P j K comp c st, o_run (mk P (Sn j)) K comp c st = run_step P (mk P j) K comp c st.
+Proof. reflexivity. Qed.
+Ltac step_frun := intros; unfold frun, fexec; rewrite o_run_S; unfold run_step; cbv beta iota; reflexivity.
+
 Lemma frun_0 : forall K comp P c st, frun K comp P 0 c st = RFuel.
 Proof. reflexivity. Qed.
 
@@ -52,7 +56,7 @@ Lemma frun_pop : forall K K' acc comp, krefines K K' ->
   frefines (frun (KSeq [] acc :: K) comp) (frun K' (through_seq comp acc)).
 Proof.
   intros K K' acc comp HK P n c st Hn. destruct n as [|n']; [exfalso; apply Hn; reflexivity|].
-  assert (E : frun (KSeq [] acc :: K) comp P (Sn n') c st = frun K (through_seq comp acc) P n' c st) by (destruct comp; reflexivity).
+  assert (E : frun (KSeq [] acc :: K) comp P (Sn n') c st = frun K (through_seq comp acc) P n' c st) by (destruct comp; step_frun).
   rewrite E in Hn. destruct (HK _ P n' c st Hn) as [m Hm]. exists m. intros k Hk. rewrite E. apply Hm; exact Hk.
 Qed.
 
@@ -201,23 +205,23 @@ Proof.
   induction 1 as [|s s' l l' Hs Hl IH]; intros K K' HK acc comp.
   - apply (frun_pop K K' acc comp) in HK as H1. (* both sides pop the empty frame *)
     intros P n c st Hn. destruct n as [|n0]; [exfalso; apply Hn; reflexivity|].
-    assert (E : forall Kx j, frun (KSeq [] acc :: Kx) comp P (Sn j) c st = frun Kx (through_seq comp acc) P j c st) by (intros; destruct comp; reflexivity).
+    assert (E : forall Kx j, frun (KSeq [] acc :: Kx) comp P (Sn j) c st = frun Kx (through_seq comp acc) P j c st) by (intros; destruct comp; step_frun).
     rewrite E in Hn. destruct (HK _ P n0 c st Hn) as [m Hm]. exists (Sn m). intros k Hk. destruct k as [|k0]; [lia|].
     rewrite !E. apply Hm; lia.
   - intros P n c st Hn. destruct n as [|n0]; [exfalso; apply Hn; reflexivity|].
     destruct comp as [v| | | |].
     + (* normal: execute the head statement in front of the rest *)
-      assert (E : forall sx lx Kx j, frun (KSeq (sx :: lx) acc :: Kx) (CNormal v) P (Sn j) c st = fexec sx (KSeq lx (upd_empty v acc) :: Kx) P j c st) by reflexivity.
+      assert (E : forall sx lx Kx j, frun (KSeq (sx :: lx) acc :: Kx) (CNormal v) P (Sn j) c st = fexec sx (KSeq lx (upd_empty v acc) :: Kx) P j c st) by step_frun.
       rewrite E in Hn.
       destruct (stmt_rel_exec _ _ Hs _ _ (IH K K' HK (upd_empty v acc)) P n0 c st Hn) as [m Hm].
       exists (Sn m). intros k Hk. destruct k as [|k0]; [lia|]. rewrite !E. apply Hm; lia.
-    + assert (E : forall lx Kx j, frun (KSeq lx acc :: Kx) (CBreak l0 v) P (Sn j) c st = frun Kx (comp_upd (CBreak l0 v) acc) P j c st) by reflexivity.
+    + assert (E : forall lx Kx j, frun (KSeq lx acc :: Kx) (CBreak l0 v) P (Sn j) c st = frun Kx (comp_upd (CBreak l0 v) acc) P j c st) by step_frun.
       rewrite E in Hn. destruct (HK _ P n0 c st Hn) as [m Hm]. exists (Sn m). intros k Hk. destruct k as [|k0]; [lia|]. rewrite !E. apply Hm; lia.
-    + assert (E : forall lx Kx j, frun (KSeq lx acc :: Kx) (CContinue l0 v) P (Sn j) c st = frun Kx (comp_upd (CContinue l0 v) acc) P j c st) by reflexivity.
+    + assert (E : forall lx Kx j, frun (KSeq lx acc :: Kx) (CContinue l0 v) P (Sn j) c st = frun Kx (comp_upd (CContinue l0 v) acc) P j c st) by step_frun.
       rewrite E in Hn. destruct (HK _ P n0 c st Hn) as [m Hm]. exists (Sn m). intros k Hk. destruct k as [|k0]; [lia|]. rewrite !E. apply Hm; lia.
-    + assert (E : forall lx Kx j, frun (KSeq lx acc :: Kx) (CReturn v) P (Sn j) c st = frun Kx (comp_upd (CReturn v) acc) P j c st) by reflexivity.
+    + assert (E : forall lx Kx j, frun (KSeq lx acc :: Kx) (CReturn v) P (Sn j) c st = frun Kx (comp_upd (CReturn v) acc) P j c st) by step_frun.
       rewrite E in Hn. destruct (HK _ P n0 c st Hn) as [m Hm]. exists (Sn m). intros k Hk. destruct k as [|k0]; [lia|]. rewrite !E. apply Hm; lia.
-    + assert (E : forall lx Kx j, frun (KSeq lx acc :: Kx) (CThrow v) P (Sn j) c st = frun Kx (comp_upd (CThrow v) acc) P j c st) by reflexivity.
+    + assert (E : forall lx Kx j, frun (KSeq lx acc :: Kx) (CThrow v) P (Sn j) c st = frun Kx (comp_upd (CThrow v) acc) P j c st) by step_frun.
       rewrite E in Hn. destruct (HK _ P n0 c st Hn) as [m Hm]. exists (Sn m). intros k Hk. destruct k as [|k0]; [lia|]. rewrite !E. apply Hm; lia.
 Qed.
 
@@ -234,75 +238,12 @@ Proof.
   destruct (pass_loop (fold_expression true (o_fix_ref o) (o_fix_ovf o)) MAX_PASS_ITERATIONS e) as [e1 u1]. exact H.
 Qed.
 
-Section SFrag.
-Variable o : opts.
-Variable P0 : prog.      (* the program the hoisting visitor looks into *)
-
-Definition no_hoist (s : stmt) : Prop := contains_hoisted (o_fix_hoist o) P0 (fst (opt_stmt o P0 true s)) = false.
-
-Inductive sfrag : stmt -> Prop :=
-| SF_expr : forall e, frag2 e -> sfrag (SExpr e)
-| SF_throw : forall e, frag2 e -> sfrag (SThrow e)
-| SF_return : forall e, frag2 e -> sfrag (SReturn (Some e))
-| SF_return0 : sfrag (SReturn None)
-| SF_empty : sfrag SEmpty
-| SF_break : forall l, sfrag (SBreak l)
-| SF_continue : forall l, sfrag (SContinue l)
-| SF_fundecl : forall x i, sfrag (SFunDecl x i)
-| SF_if_false : forall c t, frag2 c -> cf o c = EBool false -> no_hoist t -> sfrag (SIf c t None)
-| SF_while_false : forall c b, frag2 c -> cf o c = EBool false -> no_hoist b -> sfrag (SWhile c b)
-| SF_for_false : forall c b, frag2 c -> cf o c = EBool false -> no_hoist b -> sfrag (SFor FINone (Some c) None b)
-| SF_if_true_expr : forall c e, frag2 c -> frag2 e -> cf o c = EBool true -> sfrag (SIf c (SExpr e) None).
-
-Hypothesis Ho : repaired_cf_dce o.
-
-Lemma ox_cf : forall e, ox o e = (cf o e, snd (run_all o e)).
-Proof. intros e. unfold ox, cf. destruct (run_all o e); reflexivity. Qed.
-
-Lemma opt_stmt_rel : forall s, sfrag s -> stmt_rel s (fst (opt_stmt o P0 true s)).
-Proof.
-  destruct Ho as (Hcf & Hsr & Hdce & Hfd & Hfh & Hd).
-  intros s Hs. destruct Hs.
-  - cbn [opt_stmt]. rewrite ox_cf. cbn [fst dce]. constructor. apply cf_refines; assumption.
-  - cbn [opt_stmt]. rewrite ox_cf. cbn [fst dce]. constructor. apply cf_refines; assumption.
-  - cbn [opt_stmt]. unfold ox_opt, mapx_opt. rewrite ox_cf. cbn [fst dce]. constructor. apply cf_refines; assumption.
-  - cbn. constructor.
-  - cbn. constructor.
-  - cbn. constructor.
-  - cbn. constructor.
-  - cbn. constructor.
-  - (* if, condition folds to false *)
-    unfold no_hoist in H1. cbn [opt_stmt]. rewrite ox_cf. destruct (opt_stmt o P0 true t) as [t' ut]. cbn [fst] in *.
-    unfold dce. rewrite Hdce. cbn [andb]. unfold try_eliminate_if. rewrite H0. cbn [as_literal_bool]. rewrite H1, Hfd.
-    constructor. rewrite <- H0. apply cf_refines; assumption.
-  - unfold no_hoist in H1. cbn [opt_stmt]. rewrite ox_cf. destruct (opt_stmt o P0 true b) as [b' ub]. cbn [fst] in *.
-    unfold dce. rewrite Hdce. cbn [andb]. unfold try_eliminate_while. rewrite H0. cbn [as_literal_bool]. rewrite H1, Hfd.
-    constructor. rewrite <- H0. apply cf_refines; assumption.
-  - unfold no_hoist in H1. cbn [opt_stmt]. unfold ox_opt, mapx_opt. rewrite ox_cf. destruct (opt_stmt o P0 true b) as [b' ub]. cbn [fst] in *.
-    unfold dce. rewrite Hdce. cbn [andb]. unfold try_eliminate_for. rewrite H0. cbn [as_literal_bool]. rewrite H1, Hfd.
-    constructor. rewrite <- H0. apply cf_refines; assumption.
-  - (* if, condition folds to true, expression statement *)
-    cbn [opt_stmt]. rewrite !ox_cf. cbn [fst dce].
-    unfold dce. rewrite Hdce. cbn [andb]. unfold try_eliminate_if. rewrite H1. cbn [as_literal_bool always_has_value]. rewrite Hfd. cbn [andb negb].
-    constructor; [rewrite <- H1|]; apply cf_refines; assumption.
-Qed.
-
-Lemma opt_stmts_rel : forall l, Forall sfrag l -> Forall2 stmt_rel l (fst (opt_stmts o P0 true l)).
-Proof.
-  induction 1 as [|s l Hs Hl IH]; cbn [opt_stmts].
-  - constructor.
-  - pose proof (opt_stmt_rel s Hs) as R. destruct (opt_stmt o P0 true s) as [s' a]. destruct (opt_stmts o P0 true l) as [l' r].
-    cbn [fst] in *. constructor; assumption.
-Qed.
-End SFrag.
-
-(* Running the optimized statement list in place of the original: same answer, in every program, context, state and
-   under every continuation, from some fuel on. *)
-Theorem straight_line_preserves_lem : forall o P0 l, repaired_cf_dce o -> Forall (sfrag o P0) l ->
+(* Replacing a straight-line statement list by a related one: same answer under every continuation, in every program,
+   context and state, from some fuel on. *)
+Theorem straight_line_refines_lem : forall l l', Forall2 stmt_rel l l' ->
   forall K acc comp P n c st, o_run (mk P n) (KSeq l acc :: K) comp c st <> RFuel ->
-  exists m, forall k, m <= k ->
-    o_run (mk P k) (KSeq (fst (opt_stmts o P0 true l)) acc :: K) comp c st = o_run (mk P n) (KSeq l acc :: K) comp c st.
+  exists m, forall k, m <= k -> o_run (mk P k) (KSeq l' acc :: K) comp c st = o_run (mk P n) (KSeq l acc :: K) comp c st.
 Proof.
-  intros o P0 l Ho Hl K acc comp P n c st Hn.
-  exact (krefines_seq _ _ (opt_stmts_rel o P0 Ho l Hl) K K (krefines_refl K) acc comp P n c st Hn).
+  intros l l' Hl K acc comp P n c st Hn.
+  exact (krefines_seq _ _ Hl K K (krefines_refl K) acc comp P n c st Hn).
 Qed.
